@@ -212,7 +212,8 @@ class C12(Property):
         samp = rng.choice([0.4, 0.5, 0.45])
         c = {"aseed": rng.randint(0, 10 ** 6), "gpts": [g, rng.choice([g, g, g + rng.choice([-3, 5, 8])])], "sampling": [samp, samp],
              "energy": rng.choice([80e3, 100e3, 200e3, 300e3]), "ens": rng.choice([[], [], [2]]),
-             "step": rng.choice([1.0, 1.0, 0.5, 2.0, 3.0, 1.5, 0.75, 2.5]), "inner_frac": rng.choice([0.0, 0.0, 0.125, 0.25, 0.3]),
+             "step": rng.choice([1.0, 1.0, 0.5, 2.0, 3.0, 1.5, 0.75, 2.5, 0.1, 0.3, 0.7, 1.1, 0.1, 0.3, 0.7, 1.1]),
+             "offset": rng.choice([None, None, [2.0, 0.0], [-1.5, 3.0]]), "inner_frac": rng.choice([0.0, 0.0, 0.125, 0.25, 0.3]),
              "outer_frac": rng.choice([None, 0.5, 0.75, 0.9, 0.66]), "nr": rng.randint(1, 4), "na": rng.choice([1, 2, 3, 4, 6]),
              "rot": rng.choice([0.0, 0.0, 0.3]), "shift": rng.random() < 0.5, "i0": rng.randint(0, 3), "di": rng.randint(1, 4)}
         return c
@@ -268,6 +269,15 @@ class C12(Property):
                 if s.shape[-2:] != (c["nr"], c["na"]) or not near(s.sum(axis=(-2, -1)), a, total):
                     ctx.violation("segments-sum-vs-annular", c, {"limits": [a0, a1], "segments": s.sum(axis=(-2, -1)).reshape(-1)[:2].tolist(),
                                                                  "annular": a.reshape(-1)[:2].tolist()})
+                    ok = False
+            # --- a shifted annular detector == integrate_radial with the same offset (the detector must not drop its offset)
+            if c.get("offset"):
+                off = tuple(c["offset"])
+                ao = arr_of(AnnularDetector(a0, a1, offset=off).detect(w))
+                bo = arr_of(w.diffraction_patterns(max_angle="full", fftshift=c["shift"]).integrate_radial(a0, a1, offset=off))
+                if not near(ao, bo, total):
+                    ctx.violation("annular-detector-ignores-offset", c, {"limits": [a0, a1], "offset": list(off), "detector": ao.reshape(-1)[:2].tolist(),
+                                                                         "integrate_radial": bo.reshape(-1)[:2].tolist()})
                     ok = False
             # --- additivity over adjacent ranges
             mid = inner + ((i0 + i1) // 2) * c["step"]
